@@ -934,6 +934,60 @@ Definition tr_tw_After_pos (timeout : Z) (tw_t : Z) (tw_maxT : Z) (tw_currPos : 
     if (negb (wheel_size =? 0)) then (let pos := (Z.rem (wrapS 64 (tw_currPos + pos)) wheel_size) in
     Next pos) else Panic)) else Panic.
 
+Definition k_transport_PackageLess : Z := 0.
+Definition k_transport_PackageFull : Z := 1.
+(* tars/transport/tcphandler.go: func tcpHandler.recv, statements "currBuffer = append(currBuffer, buffer[:n]...)" .. "for {" *)
+Definition tr_srv_recv_chunk (fuel : nat) (buffer : (list N)) (currBuffer : (list N)) (n : Z) (parse_package : list N -> Z * Z) (out : list (list N)) : ctl ((list (list N)) * (list N)) (list (list N) * unit) :=
+  if (go_slice_ok buffer 0 n) then (let currBuffer := currBuffer ++ (go_slice buffer 0 n) in
+    bindc (go_loop fuel (fun st : (list (list N)) * (list N) => let '(out, currBuffer) := st in
+      let '(pkgLen, status) := (parse_package currBuffer) in
+      bindc (if (status =? k_transport_PackageLess)
+        then Return (inl (inl (out, currBuffer)))
+        else Next out)
+      (fun out : (list (list N)) =>
+      bindc (if (status =? k_transport_PackageFull)
+        then if (0 <=? pkgLen) then (let pkg := (go_make pkgLen 0%N) in
+          if (go_slice_ok currBuffer 0 pkgLen) then (let pkg := go_copy pkg (go_slice currBuffer 0 pkgLen) in
+          if (go_slice_ok currBuffer pkgLen (go_len currBuffer)) then (let currBuffer := (go_slice currBuffer pkgLen (go_len currBuffer)) in
+          let out := out ++ (go_deliver pkg) in let _ := false in
+          bindc (if (0 <? (go_len currBuffer))
+            then Return (inl (inr (out, currBuffer)))
+            else Next out)
+          (fun out : (list (list N)) =>
+          let currBuffer := (@nil N) in
+          Return (inl (inl (out, currBuffer))))) else Panic) else Panic) else Panic
+        else Next (out, currBuffer))
+      (fun st : (list (list N)) * (list N) => let '(out, currBuffer) := st in
+      Return (inr (out, tt))))) (out, currBuffer))
+    (fun st : (list (list N)) * (list N) => let '(out, currBuffer) := st in
+    Next (out, currBuffer))) else Panic.
+
+(* tars/transport/tarsclient.go: func connection.recv, statements "currBuffer = append(currBuffer, buffer[:n]...)" .. "for {" *)
+Definition tr_cli_recv_chunk (fuel : nat) (buffer : (list N)) (currBuffer : (list N)) (n : Z) (parse_package : list N -> Z * Z) (out : list (list N)) : ctl ((list (list N)) * (list N)) (list (list N) * unit) :=
+  if (go_slice_ok buffer 0 n) then (let currBuffer := currBuffer ++ (go_slice buffer 0 n) in
+    bindc (go_loop fuel (fun st : (list (list N)) * (list N) => let '(out, currBuffer) := st in
+      let '(pkgLen, status) := (parse_package currBuffer) in
+      bindc (if (status =? k_transport_PackageLess)
+        then Return (inl (inl (out, currBuffer)))
+        else Next out)
+      (fun out : (list (list N)) =>
+      bindc (if (status =? k_transport_PackageFull)
+        then if (0 <=? pkgLen) then (let pkg := (go_make pkgLen 0%N) in
+          if (go_slice_ok currBuffer 0 pkgLen) then (let pkg := go_copy pkg (go_slice currBuffer 0 pkgLen) in
+          if (go_slice_ok currBuffer pkgLen (go_len currBuffer)) then (let currBuffer := (go_slice currBuffer pkgLen (go_len currBuffer)) in
+          let out := out ++ (go_deliver pkg) in let _ := false in
+          bindc (if (0 <? (go_len currBuffer))
+            then Return (inl (inr (out, currBuffer)))
+            else Next out)
+          (fun out : (list (list N)) =>
+          let currBuffer := (@nil N) in
+          Return (inl (inl (out, currBuffer))))) else Panic) else Panic) else Panic
+        else Next (out, currBuffer))
+      (fun st : (list (list N)) * (list N) => let '(out, currBuffer) := st in
+      Return (inr (out, tt))))) (out, currBuffer))
+    (fun st : (list (list N)) * (list N) => let '(out, currBuffer) := st in
+    Next (out, currBuffer))) else Panic.
+
 (* struct github.com/TarsCloud/TarsGo/tars/protocol/res/endpointf.EndpointF *)
 Record go_endpointf_EndpointF := { go_endpointf_EndpointF_Host : (list N);
   go_endpointf_EndpointF_Port : Z;
